@@ -50,14 +50,14 @@ CLAIMED.update({
 CLAIMED.update({
  "C17": dict(engine="containers", design="§3 C17",
    text="Seeded histories over a pool of six aliases bound to lists, string-keyed dicts and sets (some aliases of one another): every item/slice/extended-slice assignment and deletion shape, append/extend/+=/slice-assign from lists, tuples, iterators, generator expressions, other aliases and the container itself, sort with key functions that mutate or read lists, *=, copies by constructor/slice/+[]/*1, live iterators stepped between mutations, loops that mutate what they iterate, dict set/del/get/update/views, set add/ops; dict and set iteration order is chosen by the simulator. After every operation the result or exception class and a dump of all aliases must equal CPython's containers after the same history.",
-   note="Trusted: CPython 3.11 containers as the reference model; methods generated from a static list of what the pinned tree registers plus update. Four known findings (dict.update and set.update missing, equal scalars of different types kept distinct in sets, dict views iterating in unrelated orders) are listed in known_findings.json, their input classes are excluded from random generation and their witnesses replayed on every run.",
+   note="Trusted: CPython 3.11 containers as the reference model; methods generated from a static list of what the pinned tree registers plus update. Two known findings (equal scalars of different types kept distinct in sets; dict views iterating in unrelated orders) are listed in known_findings.json, their input classes are excluded from random generation and their witnesses replayed on every run; nine repaired defects are replayed as regressions.",
    technique=TECH + ": seeded operation histories on aliased containers with live iterators and callbacks, simulator-chosen map order, CPython reference model"),
 })
 
 CLAIMED.update({
  "C08": dict(engine="isolation+race-contexts", design="§3 C08",
    text="Mode A (deterministic simulation): 2-4 contexts, one cooperative task each, run generated programs that write context-specific values to and read back 21 kinds of reachable per-context state (module globals, attributes of Go modules incl. os.environ, sys.path/sys.argv in place and rebound, builtins added and rebound, a source module from a shared virtual file system, class attributes, mutable defaults, attributes of built-in types), optionally all on ONE shared code object, interleaved at every VM instruction by a seeded scheduler; each context's trace must equal its solo trace and a fingerprint of the process-global state from which contexts are built (module implementations, built-in type dictionaries) must not change. Mode B (stated as NOT deterministic): the same scenarios and parallel REPL sessions on free-running goroutines in a -race build of the uninstrumented tree; zero race reports and solo equivalence.",
-   note="Trusted: rewrites R1-R3/R5; mode A explores sequentially-consistent interleavings only. Mode B decides only the data-race clause, on the executed paths of the sampled scenarios; a race report ends the worker and is reported with the scenario. One known finding (vm.PrintExpr hook raced by concurrent REPL sessions) is listed in known_findings.json.",
+   note="Trusted: rewrites R1-R3/R5; mode A explores sequentially-consistent interleavings only. Mode B decides only the data-race clause, on the executed paths of the sampled scenarios; a race report ends the worker and is reported with the scenario. Three repaired defects (built-in type attributes and os.environ shared between contexts, vm.PrintExpr raced by concurrent REPL sessions) are replayed as regressions.",
    technique=TECH + ": seeded cooperative interleaving of contexts at VM-instruction granularity, solo-run equivalence + global-state fingerprint; plus race-detector runs on real goroutines for the data-race clause"),
 })
 CLAIMED["C18"]["engine"] = "compiledet+race-compile"
